@@ -13,6 +13,7 @@ pub mod apps;
 pub mod msggen;
 pub mod rawpeer;
 pub mod sched;
+pub mod wiremsg;
 
 use bytes::{Buf, Bytes};
 use h3::quic::{self, ConnectionErrorIncoming, StreamErrorIncoming, StreamId, WriteBuf};
